@@ -64,6 +64,22 @@ def tweak(rng, root, ctx):
                 ws[rng.randrange(1, len(ws))] = rng.choice(["\u200b", "\ufeff", "\u2060", "\u200d"])
                 t.content = " ".join(ws)
                 ctx.count("titles_with_an_invisible_token")
+            if rng.random() < 0.1:
+                # words joined by something that only looks like a space in a browser: text that spells an entity stays one word
+                ws = t.content.split(" ")
+                if len(ws) >= 2:
+                    j = rng.randrange(len(ws) - 1)
+                    ws[j:j + 2] = [ws[j] + rng.choice(["&nbsp;", "&#160;", "&#xA0;", "&ensp;", "_", "-"]) + ws[j + 1]]
+                    t.content = " ".join(ws)
+                    ctx.count("titles_with_entity_joined_words")
+            if rng.random() < 0.15:
+                # the language of the title says nothing about how many words it should have
+                from vlib import domain
+                if rng.random() < 0.7:
+                    t.add_extras("xml:lang", rng.choice(domain.TITLE_LANGS))
+                else:
+                    t.add_attribute("lang", rng.choice(domain.TITLE_LANGS))
+                ctx.count("titles_with_a_language")
             if k in (4, 5):
                 ctx.count("title_at_threshold")
         mode = rng.choice(["keep", "absent", "text", "paras", "markdown", "inline_only", "empty_section", "nested_lists", "nested_lists"])
@@ -136,8 +152,11 @@ def tweak(rng, root, ctx):
     for n in treegen.all_nodes(root):
         if n.name in evalref.PARTY and n.find_child("references") is None:
             if rng.random() < 0.5:
-                u = Node("userId", content=rng.choice(["0000-0001-2345-6789", "u1"]))
-                u.add_attribute("directory", rng.choice(["https://orcid.org", "https://orcid.org", "https://example.org/dir", "ldap://x"]))
+                # (an id is an ORCID iD when its directory says so - not when it merely looks like one, or is written as a URL)
+                u = Node("userId", content=rng.choice(["0000-0001-2345-6789", "u1", "https://orcid.org/0000-0001-2345-6789", "0000-0002-9079-593X",
+                                                       "https://ror.org/021nxhr62"]))
+                u.add_attribute("directory", rng.choice(["https://orcid.org", "https://orcid.org", "https://example.org/dir", "ldap://x", "https://ror.org",
+                                                         "https://isni.org", ""]))
                 insert(n, u)
             if rng.random() < 0.5:
                 insert(n, Node("electronicMailAddress", content="a@example.org"))
